@@ -11,9 +11,11 @@ import (
 	"context"
 	"encoding/json"
 	"fmt"
+	"hash/fnv"
 	"os"
 	"os/exec"
 	"path/filepath"
+	"regexp"
 	"sort"
 	"strconv"
 	"strings"
@@ -29,8 +31,7 @@ type propInfo struct {
 	ThoroughTO  time.Duration
 	Level       string
 	Assumptions []string
-	Fuzz        []string // native fuzz targets run in the thorough tier
-	FuzzTime    string
+	FuzzSecs    int // native fuzz campaign (go test -fuzz FuzzProperty) in the thorough tier, seconds
 }
 
 var baseAssume = []string{
@@ -56,23 +57,23 @@ func props() map[string]*propInfo {
 		p.Assumptions = append(append([]string{}, baseAssume...), p.Assumptions...)
 		m[p.ID] = p
 	}
-	add(&propInfo{ID: "C01"})
-	add(&propInfo{ID: "C02"})
-	add(&propInfo{ID: "C03"})
-	add(&propInfo{ID: "C04"})
-	add(&propInfo{ID: "C05"})
+	add(&propInfo{ID: "C01", FuzzSecs: 60})
+	add(&propInfo{ID: "C02", FuzzSecs: 90})
+	add(&propInfo{ID: "C03", FuzzSecs: 60})
+	add(&propInfo{ID: "C04", FuzzSecs: 120})
+	add(&propInfo{ID: "C05", FuzzSecs: 60})
 	add(&propInfo{ID: "C06", Assumptions: []string{"the abstract-document model and its expected-HTML function transcribe the CommonMark 0.30 mapping correctly; the serializer only emits spellings whose meaning the spec fixes (rules S1-S7 in DESIGN.md)"}})
-	add(&propInfo{ID: "C07", Assumptions: []string{"golang.org/x/net/html's tokenizer implements the WHATWG tokenizer (cross-check only; the strict output grammar is hand-written)"}})
+	add(&propInfo{ID: "C07", FuzzSecs: 90, Assumptions: []string{"golang.org/x/net/html's tokenizer implements the WHATWG tokenizer (cross-check only; the strict output grammar is hand-written)"}})
 	add(&propInfo{ID: "C08", Level: "fault_enumeration"})
 	add(&propInfo{ID: "C09", Assumptions: []string{"the reference renderer of C10 reads the tree as documented"}})
-	add(&propInfo{ID: "C10", Assumptions: []string{"the reference renderer transcribes the documented node-to-HTML mapping"}})
+	add(&propInfo{ID: "C10", FuzzSecs: 60, Assumptions: []string{"the reference renderer transcribes the documented node-to-HTML mapping"}})
 	add(&propInfo{ID: "C11", Assumptions: []string{"the reference process-emphasis procedure transcribes the CommonMark 0.30 appendix algorithm without its openers_bottom optimisation"}})
 	add(&propInfo{ID: "C12", Assumptions: []string{"golang.org/x/text/cases.Fold implements Unicode full case folding"}})
-	add(&propInfo{ID: "C13"})
+	add(&propInfo{ID: "C13", FuzzSecs: 60})
 	add(&propInfo{ID: "C14"})
 	add(&propInfo{ID: "C15", Assumptions: []string{"the regular expressions in internal/specre transcribe the CommonMark 0.30 definitions"}})
-	add(&propInfo{ID: "C16"})
-	add(&propInfo{ID: "C17", Assumptions: []string{"golang.org/x/net/html's tokenizer implements the WHATWG data-state rules"}})
+	add(&propInfo{ID: "C16", FuzzSecs: 60})
+	add(&propInfo{ID: "C17", FuzzSecs: 90, Assumptions: []string{"golang.org/x/net/html's tokenizer implements the WHATWG data-state rules"}})
 	add(&propInfo{ID: "C18"})
 	add(&propInfo{ID: "C19", Race: true, Assumptions: []string{"the Go race detector reports unsynchronised conflicting accesses that happen in a run; schedules are not enumerated"}})
 	add(&propInfo{ID: "C20", Level: "fault_enumeration", Assumptions: []string{"canonical style and supported construct set as fixed in DESIGN.md section C20"}})
@@ -151,8 +152,34 @@ func usage() {
 }
 
 func pkgDir(id string) string { return "./props/" + strings.ToLower(id) }
+// altTag distinguishes the artefacts of runs against a scratch copy of the
+// repository (VERIF_REPO, sensitivity runs) so that they can run side by side.
+func altTag() string {
+	alt := os.Getenv("VERIF_REPO")
+	if alt == "" {
+		return ""
+	}
+	h := fnv.New32a()
+	h.Write([]byte(alt))
+	return fmt.Sprintf("-alt%08x", h.Sum32())
+}
+
+func evidenceDir() string {
+	if t := altTag(); t != "" {
+		return filepath.Join(verifDir, ".work", "evidence"+t)
+	}
+	return filepath.Join(verifDir, "evidence")
+}
+
+func replayDir() string {
+	if t := altTag(); t != "" {
+		return filepath.Join(verifDir, ".work", "replays"+t)
+	}
+	return filepath.Join(verifDir, "replays")
+}
+
 func binPath(id string) string {
-	return filepath.Join(verifDir, "bin", strings.ToLower(id)+".test")
+	return filepath.Join(verifDir, "bin", strings.ToLower(id)+altTag()+".test")
 }
 
 func build(p *propInfo) ([]byte, error) {
@@ -166,10 +193,10 @@ func build(p *propInfo) ([]byte, error) {
 			return nil, err
 		}
 		os.MkdirAll(filepath.Join(verifDir, ".work"), 0o755)
-		altmod := filepath.Join(verifDir, ".work", "alt.mod")
+		altmod := filepath.Join(verifDir, ".work", "alt"+altTag()+".mod")
 		os.WriteFile(altmod, bytes.ReplaceAll(mod, []byte("=> /repo"), []byte("=> "+alt)), 0o644)
 		sum, _ := os.ReadFile(filepath.Join(verifDir, "go.sum"))
-		os.WriteFile(filepath.Join(verifDir, ".work", "alt.sum"), sum, 0o644)
+		os.WriteFile(filepath.Join(verifDir, ".work", "alt"+altTag()+".sum"), sum, 0o644)
 		args = append(args, "-modfile="+altmod)
 	}
 	if p.Race {
@@ -248,7 +275,7 @@ func run(p *propInfo, tier string, seed int64, replay string) int {
 	os.MkdirAll(filepath.Join(verifDir, "bin"), 0o755)
 	os.MkdirAll(filepath.Join(verifDir, "evidence"), 0o755)
 	os.MkdirAll(filepath.Join(verifDir, "replays"), 0o755)
-	work := filepath.Join(verifDir, ".work", p.ID+"-"+tier)
+	work := filepath.Join(verifDir, ".work", p.ID+"-"+tier+altTag())
 	os.RemoveAll(work)
 	os.MkdirAll(work, 0o755)
 	// rapid would replay fail files first; none are ever written (nofailfile),
@@ -257,7 +284,7 @@ func run(p *propInfo, tier string, seed int64, replay string) int {
 
 	if replay == "" {
 		// replay files of earlier runs of this property are stale now
-		if old, _ := filepath.Glob(filepath.Join(verifDir, "replays", p.ID+"-*.json")); len(old) > 0 {
+		if old, _ := filepath.Glob(filepath.Join(replayDir(), p.ID+"-*.json")); len(old) > 0 {
 			for _, f := range old {
 				os.Remove(f)
 			}
@@ -352,6 +379,19 @@ func run(p *propInfo, tier string, seed int64, replay string) int {
 	}
 	distinct := mergeHashes(hashFiles)
 
+	// native coverage-guided fuzzing (thorough tier only; cannot be seeded: its
+	// reproducible unit is the crasher file, converted to a replay file here)
+	var fuzzNote map[string]any
+	if tier == "thorough" && replay == "" && p.FuzzSecs > 0 && (len(viols) == 0 || os.Getenv("VERIF_FUZZONLY") != "") && os.Getenv("VERIF_NOFUZZ") == "" {
+		secs := p.FuzzSecs
+		if v, err := strconv.ParseFloat(os.Getenv("VERIF_SCALE"), 64); err == nil && v > 0 && v < 1 {
+			secs = int(float64(secs)*v) + 5
+		}
+		v, note := runFuzz(p, secs, seed)
+		fuzzNote = note
+		viols = append(viols, v...)
+	}
+
 	// shortfall: rapid stops early at the test deadline and still says OK
 	for name, m := range merged {
 		if m.Requested > 0 && m.Evaluations < m.Requested && len(viols) == 0 {
@@ -423,6 +463,9 @@ func run(p *propInfo, tier string, seed int64, replay string) int {
 	if exhaustive {
 		cov["exhaustive"] = true
 	}
+	if fuzzNote != nil {
+		cov["native_fuzz"] = fuzzNote
+	}
 	if len(known) > 0 {
 		cov["known_findings_reproduced"] = known
 	}
@@ -443,7 +486,8 @@ func run(p *propInfo, tier string, seed int64, replay string) int {
 		"violations":  len(viols),
 	}
 	j, _ := json.MarshalIndent(ev, "", " ")
-	os.WriteFile(filepath.Join(verifDir, "evidence", p.ID+".json"), append(j, '\n'), 0o644)
+	os.MkdirAll(evidenceDir(), 0o755)
+	os.WriteFile(filepath.Join(evidenceDir(), p.ID+".json"), append(j, '\n'), 0o644)
 
 	for _, k := range known {
 		fmt.Printf("KNOWN-FINDING: property=%s %s %s\n", p.ID, k.ID, k.What)
@@ -502,7 +546,7 @@ func runShard(p *propInfo, tier string, seed int64, shard int, work string, time
 		"VERIF_SEED="+strconv.FormatInt(seed, 10),
 		"VERIF_SHARD="+strconv.Itoa(shard),
 		"VERIF_OUT="+out,
-		"VERIF_REPLAYS="+filepath.Join(verifDir, "replays"),
+		"VERIF_REPLAYS="+replayDir(),
 		"VERIF_FINDINGS="+filepath.Join(verifDir, "known_findings.json"),
 		"VERIF_REPLAY="+replay,
 	)
@@ -569,4 +613,109 @@ func mergeHashes(files []string) map[string]int64 {
 		out[name] = n
 	}
 	return out
+}
+
+var fuzzExecsRE = regexp.MustCompile(`execs: ([0-9]+)`)
+var fuzzCaseRE = regexp.MustCompile(`case: in=("(?:[^"\\]|\\.)*")`)
+var fuzzFileRE = regexp.MustCompile(`Failing input written to (\S+)`)
+
+// runFuzz runs the package's FuzzProperty target for secs seconds and turns a
+// crasher into a replay file.
+func runFuzz(p *propInfo, secs int, seed int64) ([]violation, map[string]any) {
+	pkg := filepath.Join(verifDir, "props", strings.ToLower(p.ID))
+	crashDir := filepath.Join(pkg, "testdata", "fuzz", "FuzzProperty")
+	os.RemoveAll(crashDir)
+	args := []string{"test", "-tags", "verif", "-run", "^$", "-fuzz", "^FuzzProperty$", "-fuzztime", fmt.Sprintf("%ds", secs)}
+	if t := altTag(); t != "" {
+		args = append(args, "-modfile="+filepath.Join(verifDir, ".work", "alt"+t+".mod"))
+	}
+	args = append(args, pkgDir(p.ID))
+	ctx, cancel := context.WithTimeout(context.Background(), time.Duration(secs+600)*time.Second)
+	defer cancel()
+	cmd := exec.CommandContext(ctx, "go", args...)
+	cmd.Dir = verifDir
+	cmd.Env = append(goEnv(), "VERIF_PROP="+p.ID, "VERIF_TIER=thorough", "VERIF_FINDINGS="+filepath.Join(verifDir, "known_findings.json"))
+	out, err := cmd.CombinedOutput()
+	note := map[string]any{"target": "FuzzProperty", "seconds": secs}
+	if m := fuzzExecsRE.FindAllSubmatch(out, -1); len(m) > 0 {
+		n, _ := strconv.ParseInt(string(m[len(m)-1][1]), 10, 64)
+		note["execs"] = n
+	}
+	var viols []violation
+	files, _ := filepath.Glob(filepath.Join(crashDir, "*"))
+	if err != nil && len(files) == 0 {
+		// a seed corpus entry failed (no crasher file is written for those):
+		// recover the input from the failure message
+		if m := fuzzCaseRE.FindSubmatch(out); m != nil && bytes.Contains(out, []byte("violated:")) {
+			if in, uerr := strconv.Unquote(string(m[1])); uerr == nil {
+				i := bytes.Index(out, []byte("violated:"))
+				end := i + 400
+				if end > len(out) {
+					end = len(out)
+				}
+				msg := string(out[i:end])
+				rf := map[string]any{"property": p.ID, "check": fuzzCheckName(p.ID), "case": map[string]any{"in": []byte(in)},
+					"input_quoted": fmt.Sprintf("%q", in), "message": msg, "seed": seed, "tier": "thorough"}
+				j, _ := json.MarshalIndent(rf, "", " ")
+				os.MkdirAll(replayDir(), 0o755)
+				path := filepath.Join(replayDir(), fmt.Sprintf("%s-fuzz-seedcorpus.json", p.ID))
+				os.WriteFile(path, j, 0o644)
+				return []violation{{Check: "native_fuzz", Replay: path, Message: msg}}, note
+			}
+		}
+		tail := out
+		if len(tail) > 1500 {
+			tail = tail[len(tail)-1500:]
+		}
+		note["inconclusive"] = "go test -fuzz exited with " + err.Error() + ": " + string(tail)
+		return nil, note
+	}
+	for _, f := range files {
+		b, rerr := os.ReadFile(f)
+		if rerr != nil {
+			continue
+		}
+		lines := strings.SplitN(string(b), "\n", 3)
+		if len(lines) < 2 || !strings.HasPrefix(lines[1], "[]byte(") {
+			continue
+		}
+		q := strings.TrimSuffix(strings.TrimPrefix(strings.TrimSpace(lines[1]), "[]byte("), ")")
+		in, uerr := strconv.Unquote(q)
+		if uerr != nil {
+			continue
+		}
+		msg := "native fuzzing found a failing input"
+		if i := bytes.Index(out, []byte("violated:")); i >= 0 {
+			end := i + 400
+			if end > len(out) {
+				end = len(out)
+			}
+			msg = string(out[i:end])
+		}
+		rf := map[string]any{"property": p.ID, "check": fuzzCheckName(p.ID), "case": map[string]any{"in": []byte(in)},
+			"input_quoted": fmt.Sprintf("%q", in), "message": msg, "seed": seed, "tier": "thorough"}
+		j, _ := json.MarshalIndent(rf, "", " ")
+		os.MkdirAll(replayDir(), 0o755)
+		path := filepath.Join(replayDir(), fmt.Sprintf("%s-fuzz-%s.json", p.ID, filepath.Base(f)))
+		os.WriteFile(path, j, 0o644)
+		viols = append(viols, violation{Check: "native_fuzz", Replay: path, Message: msg})
+	}
+	os.RemoveAll(filepath.Join(pkg, "testdata"))
+	return viols, note
+}
+
+func fuzzCheckName(id string) string {
+	switch id {
+	case "C04":
+		return "pipeline"
+	case "C07":
+		return "safe_output"
+	case "C17":
+		return "filter"
+	case "C16":
+		return "reparse"
+	case "C10":
+		return "render"
+	}
+	return "memory"
 }
